@@ -645,9 +645,10 @@ def check_c17(run: Run, prog: Program) -> None:
         "is the squared length (2 vertices) or the squared area of the triangle (3 vertices in 3-space). (E19.eq) PolytopeTensor.__eq__ against every permutation of the vertices of a symbolic "
         "triangle and quadrilateral, each vertex of the other operand with a representative of its own: True exactly for the rotations of the cycle and of its reversal. "
         "(E19.mid) Segment.midpoint in the plane, through the line at infinity and harmonic_set with a free auxiliary point, is b_w a + a_w b up to a scalar "
-        "for arbitrary representatives of the end points. "
+        "for arbitrary representatives of the end points. (E19.circ) Triangle.circumcenter in the plane - perpendiculars of two supporting lines through the midpoints, "
+        "the midpoints by the contract E19.mid proves - lies on the perpendicular bisector of all three edges. "
         "NOT decided: the projection of polygons embedded in 3-space onto their plane, RegularPolygon, Cuboid; == of polyhedra (facets in any order); "
-        "Triangle.circumcenter; midpoints in 3-space."
+        "midpoints and circumcenters in 3-space."
     )
     poly = prog.cls("PolytopeTensor")
 
@@ -673,6 +674,8 @@ def check_c17(run: Run, prog: Program) -> None:
     # Segment.midpoint: the harmonic conjugate of the point at infinity of the supporting line
     n6 = quadforms.rule_metric_constructions(run, prog, part="midpoint")
     run.floor("midpoint constructions read (found, decided or not)", n6, 1)
+    n7 = quadforms.rule_metric_constructions(run, prog, part="circumcenter")
+    run.floor("circumcenter constructions read (found, decided or not)", n7, 1)
 
 
 # ================================================================================================ C01
